@@ -348,21 +348,25 @@ def run(ck):
                 tgt = n.ast.target
                 if isinstance(tgt, ast.Tuple) and len(tgt.elts) == 2:
                     loop_var = (norm(tgt.elts[0]), norm(tgt.elts[1]))
-        ck.need(R1, loop_var is not None, "the zip loop of _convert was not recognised")
-        vname, sname = loop_var
-        none_raise = [r for r in raises if cfg.has_guard(r, f'{sname} is None', True)
-                      and r.kinds == {'N:ValueError'}]
-        ck.ob(R1, f"{conv.fid} :: None scale raises", bool(none_raise),
-              "a present element whose scale is None (calendar month/year) raises ValueError"
-              if none_raise else f"no `raise ValueError` under `{sname} is None`", conv, conv.node)
-        # the accumulation uses num * scale
-        acc = nodes_where(cfg, lambda n: isinstance(n.ast, ast.AugAssign) and isinstance(n.ast.op, ast.Add)
-                          and isinstance(n.ast.value, ast.BinOp) and isinstance(n.ast.value.op, ast.Mult)
-                          and sname in (norm(n.ast.value.left), norm(n.ast.value.right)))
-        ck.ob(R1, f"{conv.fid} :: accumulation", len(acc) == 1,
-              "result += num * scale_factor" if len(acc) == 1 else
-              "the result is not accumulated as number * scale factor", conv,
-              acc[0].ast if acc else conv.node)
+        if loop_var is None and ck.backing.get('_convert') is True:
+            ck.note("R19.1: the element loop of _convert has a layout the shape rule cannot read; 'a calendar unit "
+                    "raises' and 'seconds = sum of element x unit' are decided by the abstract run R19.7")
+        else:
+            ck.need(R1, loop_var is not None, "the zip loop of _convert was not recognised")
+            vname, sname = loop_var
+            none_raise = [r for r in raises if cfg.has_guard(r, f'{sname} is None', True)
+                          and r.kinds == {'N:ValueError'}]
+            ck.ob(R1, f"{conv.fid} :: None scale raises", bool(none_raise),
+                  "a present element whose scale is None (calendar month/year) raises ValueError"
+                  if none_raise else f"no `raise ValueError` under `{sname} is None`", conv, conv.node)
+            # the accumulation uses num * scale
+            acc = nodes_where(cfg, lambda n: isinstance(n.ast, ast.AugAssign) and isinstance(n.ast.op, ast.Add)
+                              and isinstance(n.ast.value, ast.BinOp) and isinstance(n.ast.value.op, ast.Mult)
+                              and sname in (norm(n.ast.value.left), norm(n.ast.value.right)))
+            ck.ob(R1, f"{conv.fid} :: accumulation", len(acc) == 1,
+                  "result += num * scale_factor" if len(acc) == 1 else
+                  "the result is not accumulated as number * scale factor", conv,
+                  acc[0].ast if acc else conv.node)
 
     with ck.section('R19.2'):
         # ---- R19.2 fullmatch
@@ -379,7 +383,7 @@ def run(ck):
               f"method(s) {[c.func.attr for c in fm]} applied to {sorted(pats_used)}", conv,
               fm[0] if fm else conv.node)
 
-    with ck.section('R19.3'):
+    with ck.section('R19.3', backed_by='_convert', prefix='utils.timeunits:_convert'):
         # ---- R19.3 decided layout-independently: the element loop and the code after it are run on
         # every combination of elements (absent / 0 / integer / fraction with '.' / fraction with ','),
         # for the 4 traditional and the 6 ISO groups, and compared with the documented result
@@ -767,6 +771,7 @@ def _convert_run(ck, R7, prog, mod):
     if not (out[0] == 'raise' and 'ValueError' in str(out[1])):
         bad['nomatch'].append(f"a string neither pattern matches: {out}")
     ck.abstract_cases += n
+    ck.backing['_convert'] = not any(bad.values())
     for key, label in (('trad', 'traditional format'), ('iso', 'ISO 8601 format'), ('nomatch', 'no match')):
         ck.ob(R7, f"{conv.fid} :: abstract run :: {label}", not bad[key],
               f"as documented on all element combinations ({n} cases in total)" if not bad[key]
